@@ -211,7 +211,8 @@ pub trait Storage {
         components: &mut [(*mut u8, usize)],
         length: usize,
         identifier_iter: archetype::identifier::Iter<R>,
-    ) where
+    ) -> *const u8
+    where
         C: Component,
         R: Registry;
 
@@ -398,10 +399,12 @@ impl Storage for Null {
         _components: &mut [(*mut u8, usize)],
         _length: usize,
         _identifier_iter: archetype::identifier::Iter<R>,
-    ) where
+    ) -> *const u8
+    where
         C: Component,
         R: Registry,
     {
+        core::ptr::null()
     }
 
     unsafe fn free_components<R>(
@@ -747,11 +750,16 @@ where
         mut components: &mut [(*mut u8, usize)],
         length: usize,
         mut identifier_iter: archetype::identifier::Iter<R_>,
-    ) where
+    ) -> *const u8
+    where
         C_: Component,
         R_: Registry,
     {
+        // The location of the skipped component within the buffer, if it is skipped here. It is
+        // returned so the caller can drop the skipped component once it is done with the buffer.
+        let mut skipped = core::ptr::null();
         if TypeId::of::<C>() == TypeId::of::<C_>() {
+            skipped = buffer;
             // Skip this component in the buffer.
             buffer =
                 // SAFETY: The bit buffer is guaranteed to have a value of type `C` at this point
@@ -838,14 +846,19 @@ where
         // same number of bits remaining as `R` has components remaining.
         //
         // Finally, since `(C, R)` contains no duplicate components, neither does `R`.
-        unsafe {
+        let skipped_later = unsafe {
             R::push_components_from_buffer_skipping_component(
                 buffer,
                 component,
                 components,
                 length,
                 identifier_iter,
-            );
+            )
+        };
+        if skipped.is_null() {
+            skipped_later
+        } else {
+            skipped
         }
     }
 
